@@ -116,6 +116,19 @@ func (p propC11) Gen(r *simrt.Rand, idx int, tier string) any {
 		c.ReadBack = "auto"
 		c.Keys = append(c.Keys, fat[0], fat[n-1])
 	}
+	if idx == 1207 || idx == 2407 {
+		// a client that keeps a stream open and then does nothing at all for more than half a
+		// minute (real time; real gRPC only): whatever the transport does to idle connections must
+		// not be visible to the caller
+		c.Client = "grpcreal"
+		id := uint64(960000)
+		c.Ops = append(c.Ops, Op{K: "set", Key: "idle-big", ID: id, Size: 3 << 20}, Op{K: "ropen", Key: "idle-big", N: 2000},
+			Op{K: "copen", Key: "idle-new", ID: id + 1, Size: 600, Writes: []int{100, 500}, Pre: 1, N: 2001},
+			Op{K: "sleep", N: 36000},
+			Op{K: "cclose", N: 2001}, Op{K: "rread", N: 2000}, Op{K: "get", Key: "idle-new"})
+		c.Keys = append(c.Keys, "idle-big", "idle-new")
+		c.ReadBack = "none"
+	}
 	if idx%24 == 7 || idx%24 == 20 {
 		// long-lived streams: as many readers of a content of several megabytes as the server has
 		// workers (and one more) are handed out and left unread while ordinary calls go on; then they
@@ -384,7 +397,11 @@ func grpcRealExec(c SeqCase) RunOut {
 		}
 		// every call gets half a minute of real time: a call that never returns (the client parked
 		// by the transport, say) becomes an error the model does not expect instead of a hang
-		ctx, cancel := context.WithTimeout(context.Background(), 30*time.Second)
+		if o.K == "sleep" {
+			time.Sleep(time.Duration(o.N) * time.Millisecond) // real time: the connection is idle, streams stay open
+			continue
+		}
+		ctx, cancel := context.WithTimeout(context.Background(), 120*time.Second)
 		cancels = append(cancels, cancel)
 		w.Ctx = ctx
 		if !s.step(i, o) {
